@@ -79,9 +79,35 @@ def run(name, props):
             if r['lines'] and all('no-failing-input-found' in l for l in r['lines'] if l.startswith('VIOLATION')):
                 how = 'detected (no-failing-input-found)'
         meta['detected_by'][p] = how
+    # a change its own check misses: does it still break the property on the current tree?  (fixes in /repo
+    # have made some stored changes equivalent to the unchanged code) - run its demo with the change applied
+    if meta['detected_by'].get(meta['breaks']) == 'missed' and os.path.exists(os.path.join(dst, 'demo_test.go')):
+        meta['demo_on_current_tree'] = demo_with_change(dst)
     meta['run_on_commit'] = subprocess.check_output('git -C /repo rev-parse --short HEAD', shell=True, text=True).strip()
     json.dump(meta, open(os.path.join(dst, 'meta.json'), 'w'), indent=1)
     return 0
+
+def demo_with_change(dst):
+    import re, tempfile
+    wt = tempfile.mkdtemp(prefix='seeded-demo-', dir='/tmp')
+    os.rmdir(wt)
+    try:
+        rc, o = sh('git -C /repo worktree add -q --detach %s HEAD' % wt)
+        if rc != 0:
+            return 'not run: ' + o[-200:]
+        rc, o = sh('git -C %s apply %s' % (wt, os.path.join(dst, 'patch.diff')))
+        if rc != 0:
+            return 'patch does not apply'
+        src = open(os.path.join(dst, 'demo_test.go')).read()
+        names = re.findall(r'^func (Test\w+)\(', src, re.M)
+        open(os.path.join(wt, 'pkg/ggql/zz_demo_test.go'), 'w').write(src)
+        tags = '-tags verif ' if '//go:build verif' in src else ''
+        env = 'GOFLAGS=-mod=mod GOPROXY=off GOSUMDB=off GOTOOLCHAIN=local'
+        rc, o = sh('cd %s && %s timeout 600 go test %s-vet=off -count=1 -run "^(%s)$" ./pkg/ggql/' % (wt, env, tags, '|'.join(names)))
+        return 'demo fails with the change (still a defect)' if rc != 0 else 'demo passes with the change: equivalent to the unchanged code on the current tree'
+    finally:
+        sh('git -C /repo worktree remove --force %s' % wt)
+        sh('git -C /repo worktree prune')
 
 def sweep(names):
     """run every stored change (or the named ones) against the check of the property it breaks"""
@@ -106,6 +132,8 @@ def table():
             continue
         m = json.load(open(mp))
         det = '; '.join('%s: %s' % kv for kv in sorted(m.get('detected_by', {}).items())) or 'not run'
+        if m.get('demo_on_current_tree'):
+            det += ' (' + m['demo_on_current_tree'] + ')'
         rows.append('| %s | %s | %s | %s |' % (n, m['breaks'], m.get('needs_to_manifest', '').replace('|', '/'), det))
     out = ['# Seeded changes', '',
            'Each directory holds `patch.diff` (the change), `demo_test.go` (fails with the change, passes without),',
